@@ -370,7 +370,12 @@ class CPreProcessor:
         name = macro_token.val
         in_hideset = self.in_hideset(name)
         # in_hideset = name in macro_token.hideset
-        if self.is_defined(name) and not in_hideset:
+        if in_hideset and self.is_defined(name):
+            # C99 6.10.3.4p2: a macro name found while it is being replaced is
+            # never available for replacement again, also not after it has
+            # been passed on as a macro argument.
+            macro_token.painted = True
+        if self.is_defined(name) and not macro_token.painted:
             if self.verbose:
                 self.logger.debug("Expanding macro %s", name)
 
@@ -389,6 +394,8 @@ class CPreProcessor:
                 if self.verbose:
                     self.logger.debug("%s expanded into %s", name, expansion)
 
+                # Fresh tokens, the macro definition must stay unpainted:
+                expansion = [t.copy() for t in expansion]
                 self.copy_leading_space(macro_token, expansion)
                 self.push_expansion(MacroExpansion(iter(expansion), hideset))
                 return True
